@@ -56,7 +56,7 @@ def chain(cs, ts, n_before, n_after, first=0, last=None, refract_first=True, ref
 class Lens:
     """prescription numbers + oracle"""
 
-    def __init__(self, ctx, K, mirrors=(), stop=1, obj='inf', planes=(), media=None):
+    def __init__(self, ctx, K, mirrors=(), stop=1, obj='inf', planes=(), media=None, tpos=False):
         self.ctx = ctx
         self.K = K
         self.mirrors = [k in mirrors for k in range(1, K + 1)]
@@ -73,7 +73,7 @@ class Lens:
                 r = ctx.real(f'R{k}', ne=0)
                 self.R.append(r)
                 self.c.append(1 / r)
-            self.t.append(ctx.real(f't{k}'))
+            self.t.append(ctx.real(f't{k}', lo=0.0) if tpos else ctx.real(f't{k}'))
             if self.mirrors[k - 1]:
                 self.n.append('mirror')
             elif media and media.get(k) == 'air':
